@@ -633,10 +633,10 @@ class ActionCommand(Command):
                         unquote = True
                         break
             if unquote:
-                if "," in value:
-                    args += tools.to_list(value)
+                if isinstance(value, list) or value.startswith("["):
+                    args.append(tools.to_list(value))
                 else:
-                    args.append(value.strip('"'))
+                    args.append(tools.unquote_string(value))
                 continue
             args.append(value)
         return (self.name,) + tuple(args)
@@ -787,22 +787,12 @@ class EnvelopeCommand(TestCommand):
     def args_as_tuple(self):
         """Return arguments as a list."""
         result = ("envelope", self.arguments["match-type"])
-        value = self.arguments["header-list"]
-        if isinstance(value, list):
-            # FIXME
-            value = "[{}]".format(",".join('"{}"'.format(item) for item in value))
-        if value.startswith("["):
-            result += (tools.to_list(value),)
-        else:
-            result += ([value.strip('"')],)
-        value = self.arguments["key-list"]
-        if isinstance(value, list):
-            # FIXME
-            value = "[{}]".format(",".join('"{}"'.format(item) for item in value))
-        if value.startswith("["):
-            result += (tools.to_list(value),)
-        else:
-            result = result + ([value.strip('"')],)
+        for name in ["header-list", "key-list"]:
+            value = self.arguments[name]
+            if isinstance(value, list) or value.startswith("["):
+                result += (tools.to_list(value),)
+            else:
+                result += ([tools.unquote_string(value)],)
         return result
 
 
@@ -819,11 +809,9 @@ class ExistsCommand(TestCommand):
 
         """
         value = self.arguments["header-names"]
-        if isinstance(value, list):
-            value = "[{}]".format(",".join('"{}"'.format(item) for item in value))
-        if not value.startswith("["):
-            return ("exists", value.strip('"'))
-        return ("exists",) + tuple(tools.to_list(value))
+        if isinstance(value, list) or value.startswith("["):
+            return ("exists",) + tuple(tools.to_list(value))
+        return ("exists", tools.unquote_string(value))
 
 
 class TrueCommand(TestCommand):
@@ -844,17 +832,17 @@ class HeaderCommand(TestCommand):
 
     def args_as_tuple(self):
         """Return arguments as a list."""
-        if "," in self.arguments["header-names"]:
-            result = tuple(tools.to_list(self.arguments["header-names"]))
+        value = self.arguments["header-names"]
+        if isinstance(value, list) or value.startswith("["):
+            result = tuple(tools.to_list(value))
         else:
-            result = (self.arguments["header-names"].strip('"'),)
+            result = (tools.unquote_string(value),)
         result = result + (self.arguments["match-type"],)
-        if "," in self.arguments["key-list"]:
-            result = result + tuple(
-                tools.to_list(self.arguments["key-list"], unquote=False)
-            )
+        value = self.arguments["key-list"]
+        if isinstance(value, list) or value.startswith("["):
+            result = result + tuple(tools.to_list(value, unquote=False))
         else:
-            result = result + (self.arguments["key-list"].strip('"'),)
+            result = result + (tools.unquote_string(value),)
         return result
 
 
@@ -886,13 +874,10 @@ class BodyCommand(TestCommand):
             self.arguments["match-type"],
         )
         value = self.arguments["key-list"]
-        if isinstance(value, list):
-            # FIXME
-            value = "[{}]".format(",".join('"{}"'.format(item) for item in value))
-        if value.startswith("["):
+        if isinstance(value, list) or value.startswith("["):
             result += tuple(tools.to_list(value))
         else:
-            result += (value.strip('"'),)
+            result += (tools.unquote_string(value),)
         return result
 
 
@@ -991,20 +976,17 @@ class CurrentdateCommand(TestCommand):
         result = ("currentdate",)
         result += (
             ":zone",
-            self.extra_arguments["zone"].strip('"'),
+            tools.unquote_string(self.extra_arguments["zone"]),
             self.arguments["match-type"],
         )
         if self.arguments["match-type"] in [":count", ":value"]:
-            result += (self.extra_arguments["match-type"].strip('"'),)
-        result += (self.arguments["date-part"].strip('"'),)
+            result += (tools.unquote_string(self.extra_arguments["match-type"]),)
+        result += (tools.unquote_string(self.arguments["date-part"]),)
         value = self.arguments["key-list"]
-        if isinstance(value, list):
-            # FIXME
-            value = "[{}]".format(",".join('"{}"'.format(item) for item in value))
-        if value.startswith("["):
+        if isinstance(value, list) or value.startswith("["):
             result = result + tuple(tools.to_list(value))
         else:
-            result = result + (value.strip('"'),)
+            result = result + (tools.unquote_string(value),)
         return result
 
 
